@@ -125,6 +125,24 @@ func (st *State) eqValues(a, b Value) *Term {
 	case *ChanV:
 		y := b.(*ChanV)
 		return BoolT(x.Obj == y.Obj)
+	case *RVal:
+		// reflect.Value == reflect.Value compares the type word, the data word and the flags:
+		// two Values of the same addressable location are equal; otherwise the outcome depends
+		// on allocation identity, which is not modelled: either result (decided natively on replay)
+		y, ok := b.(*RVal)
+		if !ok {
+			return FalseT
+		}
+		if x == y {
+			return TrueT
+		}
+		if x.Kind != y.Kind {
+			return FalseT
+		}
+		if x.Ref != nil && y.Ref != nil {
+			return st.eqValues(x.Ref, y.Ref)
+		}
+		return st.FreshTerm("rvaleq", SBool, 0)
 	case *OpaqueV:
 		y, ok := b.(*OpaqueV)
 		return BoolT(ok && x.ID == y.ID)
